@@ -130,7 +130,13 @@ Record dual_proof := {
   dp_tblalh : bytes; dp_last : list bytes;
   dp_lin : option linear_proof; dp_lap : option linear_advance_proof }.
 
-Definition verify_dual_proof (p : option dual_proof) (src tgt : N) (salh talh : bytes) : res bool :=
+(* `repaired` = false: the code as it stands. `repaired` = true: with the repair proposed in
+   fixes/C01-targetblalh.diff (in the branch sourceTxID >= TargetTxHeader.BlTxID, when sourceTxID ==
+   TargetTxHeader.BlTxID the last leaf of the target's tree, TargetBlTxAlh, must be the source's own
+   Alh). When that repair is committed, `verify_dual_proof` below becomes `verify_dual_proof_gen true`;
+   every theorem of Proofs/Sound.v is proved for both. *)
+Definition verify_dual_proof_gen (repaired : bool) (p : option dual_proof) (src tgt : N) (salh talh : bytes)
+  : res bool :=
   match p with
   | None => Ok false
   | Some p =>
@@ -156,12 +162,16 @@ Definition verify_dual_proof (p : option dual_proof) (src tgt : N) (salh talh : 
         if negb (verify_linear_proof (dp_lin p) (h_bltxid th) tgt (dp_tblalh p) talh) then Ok false else
         verify_linear_advance_proof (dp_lap p) (h_bltxid sh) src salh (h_blroot th) (h_bltxid th)
       else
+        if repaired && (src =? h_bltxid th) && negb (bytes_eqb (dp_tblalh p) salh) then Ok false else
         if negb (verify_linear_proof (dp_lin p) src tgt salh talh) then Ok false else
         verify_linear_advance_proof (dp_lap p) (h_bltxid sh) (h_bltxid th) (dp_tblalh p)
                                     (h_blroot th) (h_bltxid th)
     | _, _ => Ok false
     end
   end.
+
+(* VerifyDualProof as it stands in /repo *)
+Definition verify_dual_proof := verify_dual_proof_gen false.
 
 (* ---------------- VerifyDualProofV2 ---------------- *)
 Record dual_proof_v2 := {
